@@ -19,6 +19,19 @@ pub fn grid_extent(dim: usize) -> i64 {
 }
 
 /// Candidate point pool of a run.
+/// Periods of the toroidal domain of a run (a function of the run seed so that the point pool
+/// and the constructor agree).
+pub fn torus_periods(seed: u64, dim: usize) -> Vec<f64> {
+    let mut r = Rng::sub(seed, "torus-periods", 0);
+    let vals = [1.0, 1.0, 2.0, 0.75, 3.5, 10.0, 1e-3, 1024.0, 0.1, 7.0];
+    if r.chance(1, 2) {
+        let l = *r.pick(&vals);
+        vec![l; dim]
+    } else {
+        (0..dim).map(|_| *r.pick(&vals)).collect()
+    }
+}
+
 pub fn make_pool(family: &str, dim: usize, seed: u64, n: usize) -> Vec<Vec<f64>> {
     let mut rng = Rng::sub(seed, "pool", 0);
     let mut seen: BTreeSet<Vec<u64>> = BTreeSet::new();
@@ -63,6 +76,24 @@ pub fn make_pool(family: &str, dim: usize, seed: u64, n: usize) -> Vec<Vec<f64>>
                     1e300, 1e-300, 3.0, 1e154, 1e155, 0.5,
                 ];
                 (0..dim).map(|_| *rng.pick(&vals) * if rng.chance(1, 3) { rng.range_i64(1, 3) as f64 } else { 1.0 }).collect()
+            }
+            "torus" => {
+                let per = torus_periods(seed, dim);
+                (0..dim)
+                    .map(|ax| {
+                        let l = per[ax];
+                        let base = l * (rng.range_i64(0, 63) as f64) / 64.0;
+                        match rng.below(100) {
+                            0..=47 => base,
+                            48..=59 => base + l * rng.range_i64(-3, 3) as f64,
+                            60..=67 => l * rng.range_i64(-2, 2) as f64,
+                            68..=75 => base + l * 2.0f64.powi(*rng.pick(&[20, 40, 52, 60])) * if rng.chance(1, 2) { 1.0 } else { -1.0 },
+                            76..=81 => *rng.pick(&[-5e-324, -1e-18 * l, -0.0, -(2.0f64.powi(-60)) * l, -1e-30]),
+                            82..=87 => *rng.pick(&[l * (1.0 - 2.0f64.powi(-53)), f64::from_bits(l.to_bits() - 1), l - 1e-12 * l]),
+                            _ => l * (rng.range_i64(0, (1 << 20) - 1) as f64) / (1u64 << 20) as f64,
+                        }
+                    })
+                    .collect()
             }
             "wide" => (0..dim).map(|_| (rng.range_i64(0, 1023) as f64) * (1u64 << 30) as f64).collect(),
             "tiny" => (0..dim).map(|_| (rng.range_i64(0, 1023) as f64) / (1u64 << 30) as f64).collect(),
